@@ -251,7 +251,10 @@ def arr_getitem(I, st, base, sl, node=None):
         return a.elem(*full)
     out = Arr(shape, elem, kind=a.kind, etype=a.etype)
     if a.kind == "ndarray" and isinstance(base, Ref):
-        out._view_of = (base.rid, tuple(p[1] if p[0] == "int" else -1 for p in plan))  # type: ignore[attr-defined]
+        path = [p[1] if p[0] == "int" else -1 for p in plan]
+        while path and not (isinstance(path[-1], int) and path[-1] != -1) and not is_z3(path[-1]):
+            path.pop()      # trailing full slices: a[i] and a[i, :] are the same view (same identity as arr_index)
+        out._view_of = (base.rid, tuple(path))  # type: ignore[attr-defined]
         return out  # basic slicing: a view (immutable value here; writes through views are outside the subset)
     if a.kind in ("list", "tuple"):
         return st.alloc(out, "arr") if a.kind == "list" else out
@@ -443,9 +446,44 @@ def transpose(I, st, v):
     raise Unsupported("transpose of >2-d array")
 
 
+def comprehension_as_loop(I, st, node, cid, inv):
+    """A comprehension whose element has effects (draws from a generator, calls a contract with a frame) is a LOOP:
+    with a sidecar invariant registered for it (loop id "comp<k>") it is executed as
+        _comp<k> = [];  for <target> in <iter>: _comp<k>.append(<elt>)
+    cut by that invariant, like any other loop."""
+    fr = I.frame
+    g = node.generators[0]
+    acc = "_" + cid
+    st.env[acc] = st.alloc(Arr((0,), lambda i: I._pick([], i), kind="list", etype="any"), "arr")
+    call = ast.Expr(value=ast.Call(func=ast.Attribute(value=ast.Name(id=acc, ctx=ast.Load()), attr="append", ctx=ast.Load()),
+                                   args=[node.elt], keywords=[]))
+    loop = ast.For(target=g.target, iter=g.iter, body=[call], orelse=[])
+    ast.copy_location(loop, node)
+    ast.fix_missing_locations(loop)
+    fr.loop_ids[id(loop)] = cid
+    fr._comp_loops = getattr(fr, "_comp_loops", [])
+    fr._comp_loops.append(loop)      # keep the node alive: loop ids are keyed by id()
+    outs = I.x_For(loop, st)
+    normal = [o for o in outs if o.kind == "normal"]
+    if len(normal) != 1 or len(outs) != 1:
+        raise Unsupported("a comprehension executed as a loop must have exactly one (normal) exit")
+    s2 = normal[0].state
+    if s2 is not st:
+        st.env, st.heap, st.pc, st.ghost, st.facts, st.trace = s2.env, s2.heap, s2.pc, s2.ghost, s2.facts, s2.trace
+    return st.env[acc]
+
+
 def comprehension(I, st, node):
     if len(node.generators) != 1 or node.generators[0].ifs:
         raise Unsupported("comprehension with filters / several generators")
+    fr = I.frame
+    if fr is not None and fr.fn is not None and not I.in_contract:
+        cid = getattr(fr, "comp_ids", {}).get(id(node))
+        if cid is not None:
+            key = I.repo.key_of(fr.cls, fr.fn, fr.module)
+            inv = I.reg["invariants"].get((key, cid))
+            if inv is not None:
+                return comprehension_as_loop(I, st, node, cid, inv)
     g = node.generators[0]
     it = I.make_iter(I.eval(g.iter, st), st)
     n = I.concrete_int(it.length)
@@ -752,7 +790,12 @@ def arrid(I, st, v):
             idx = [to_z3(x) for x in list(vo[1])[:3]]
             while len(idx) < 3:
                 idx.append(z3.IntVal(-2))
-            return _ARRID(z3.IntVal(id(st.heap[vo[0]]) % (10 ** 9)), *idx)
+            content = st.heap[vo[0]]
+            al = getattr(content, "_row_alias", None)
+            if al is not None:
+                # row r of np.repeat(a, k, axis=0) IS (the value of) row r // k of a
+                return _ARRID(z3.IntVal(al[0]), al[1](idx[0]), *idx[1:])
+            return _ARRID(z3.IntVal(id(content) % (10 ** 9)), *idx)
         return _ARRID(z3.IntVal(id(v) % (10 ** 9)), z3.IntVal(-2), z3.IntVal(-2), z3.IntVal(-2))
     raise Unsupported("array identity of " + type(v).__name__)
 
@@ -1150,8 +1193,12 @@ def np_repeat(I, st, args, kw, node):
         raise Unsupported("np.repeat axis != 0")
     kz = to_z3(k)
     I.safety(st, kz >= 1, "repeat-count-positive", node)
-    return st.alloc(Arr((to_z3(a.shape[0]) * kz,) + tuple(a.shape[1:]),
-                        lambda *idx: a.elem(to_z3(idx[0]) / kz, *idx[1:]), kind="ndarray", etype=a.etype), "arr")
+    out = Arr((to_z3(a.shape[0]) * kz,) + tuple(a.shape[1:]),
+              lambda *idx: a.elem(to_z3(idx[0]) / kz, *idx[1:]), kind="ndarray", etype=a.etype)
+    src = args[0]
+    if isinstance(src, Ref) and src.what == "arr":
+        out._row_alias = (id(st.heap[src.rid]) % (10 ** 9), lambda r: to_z3(r) / kz)   # type: ignore[attr-defined]
+    return st.alloc(out, "arr")
 
 
 def np_divmod(I, st, args, kw, node):
@@ -1171,7 +1218,33 @@ def np_divmod(I, st, args, kw, node):
 
 
 def np_reshape(I, st, args, kw, node):
-    raise Unsupported("np.reshape (handled by dedicated contracts only)")
+    """np.reshape(a, (p, e, *rest)) where a has shape (p*e, *rest): the first axis is split, block (i, e) is row i*e_+e.
+    Any other size relation raises ValueError in NumPy (both outcomes are produced)."""
+    a = I.arr_of(args[0], st)
+    shp = args[1] if len(args) > 1 else kw.get("newshape", kw.get("shape"))
+    if not isinstance(shp, VTuple) or len(shp.items) != a.ndim + 1 or len(shp.items) < 2:
+        raise Unsupported("np.reshape form (only: split the first axis in two)")
+    used("np.reshape(a, (p, e, *rest)) of a (p*e, *rest) array: block (i, j) is row i*e + j; any other size relation "
+         "raises ValueError")
+    p_, e_ = to_z3(shp.items[0]), to_z3(shp.items[1])
+    rest = shp.items[2:]
+    # (an array with no rows has no elements: whatever its trailing dimensions, it reshapes to any shape of size 0)
+    compat = zand(to_z3(a.shape[0]) == p_ * e_, p_ >= 0, e_ >= 0,
+                  zor(to_z3(a.shape[0]) == 0, zand(*[to_z3(x) == to_z3(y) for x, y in zip(a.shape[1:], rest)])))
+    outs = []
+    if not I.in_contract:
+        s_bad = st.fork()
+        s_bad.assume(znot(compat))
+        outs.append((s_bad, None, Exc("ValueError", ())))
+        st.assume(compat)
+    def elem(i, j, *r):
+        iz, jz = to_z3(i), to_z3(j)
+        flat = iz * e_ + jz
+        # arithmetic lemma instance (true for all integers): the flat index of block (i, j) splits back into (i, j)
+        st.fact(z3.Implies(z3.And(jz >= 0, jz < e_), z3.And(flat / e_ == iz, flat % e_ == jz)))
+        return a.elem(flat, *r)
+    val = st.alloc(Arr(tuple(shp.items), elem, kind="ndarray", etype=a.etype), "arr")
+    return outs + [(st, val, None)] if outs else val
 
 
 def m_reshape(I, st, recv, args, kw, node):
@@ -1220,7 +1293,7 @@ LIB = {
     "np.round": np_round,
     "np.argsort": np_argsort,
     "np.vstack": np_stack(), "np.hstack": np_stack(), "np.concatenate": np_stack(),
-    "np.repeat": np_repeat,
+    "np.repeat": np_repeat, "np.reshape": np_reshape,
     "np.divmod": np_divmod,
     "np.power": np_power,
     "time.time": lambda I, st, a, k, n: z3.Real(fresh_name("now")),
